@@ -464,10 +464,7 @@ impl EventParser {
                     // Fallback: might be a type name used directly (like Status::Active)
                     return name;
                 }
-                // For qualified paths, return the last segment
-                if let Some(segment) = path.path.segments.last() {
-                    return segment.ident.to_string();
-                }
+                // Qualified paths (enum variants, associated constants) name a value, not a type
                 "unknown".to_string()
             }
             // Tuple: (a, b, c)
@@ -475,8 +472,8 @@ impl EventParser {
                 if tuple.elems.is_empty() {
                     return "()".to_string();
                 }
-                // For now, just mark as tuple
-                "tuple".to_string()
+                // Element types are not tracked
+                "unknown".to_string()
             }
             // Literal values
             Expr::Lit(lit) => match &lit.lit {
